@@ -1,25 +1,180 @@
 package main
 
 import (
+	"encoding/json"
+	"flag"
 	"fmt"
-	"golang.org/x/tools/go/packages"
-	"golang.org/x/tools/go/ssa"
-	"golang.org/x/tools/go/ssa/ssautil"
 	"os"
+	"os/exec"
+	"path/filepath"
+	"runtime/debug"
+	"sort"
+	"strconv"
+	"strings"
 	"time"
 )
 
-func main() {
-	t0 := time.Now()
-	cfg := &packages.Config{Mode: packages.LoadAllSyntax, Dir: "/repo", Tests: false, Env: append(os.Environ(), "GOWORK=off", "GOFLAGS=-mod=mod", "GOPROXY=off")}
-	pkgs, err := packages.Load(cfg, "./...")
-	if err != nil {
-		panic(err)
-	}
-	n := 0
-	packages.Visit(pkgs, nil, func(p *packages.Package) { n++; for _, e := range p.Errors { fmt.Println(e) } })
-	fmt.Println(len(pkgs), n, time.Since(t0))
-	prog, _ := ssautil.AllPackages(pkgs, ssa.InstantiateGenerics)
-	prog.Build()
-	fmt.Println(time.Since(t0))
+type propDef struct {
+	ID      string
+	Run     func(w *World, r *Report)
+	NotDec  []string // clauses not decided
+	Trusted []string
+	Anchors []string // repo-relative files that must be part of the loaded build
 }
+
+var props = map[string]*propDef{}
+
+func register(p *propDef) { props[p.ID] = p }
+
+type config struct{ goos, goarch string }
+
+var thoroughConfigs = []config{{"linux", "amd64"}, {"linux", "386"}, {"darwin", "arm64"}, {"windows", "amd64"}}
+
+func main() {
+	prop := flag.String("prop", "", "property id (C01..C20)")
+	tier := flag.String("tier", "quick", "quick|thorough")
+	repo := flag.String("repo", "/repo", "helm source tree")
+	verif := flag.String("verif", "/verif", "verification directory")
+	goos := flag.String("goos", "", "GOOS for a single-configuration run")
+	goarch := flag.String("goarch", "", "GOARCH for a single-configuration run")
+	emit := flag.String("emit", "", "write the raw report (JSON) to this file instead of finishing (used by the thorough driver)")
+	list := flag.Bool("list", false, "list registered properties")
+	flag.Parse()
+	if *list {
+		var ids []string
+		for id := range props {
+			ids = append(ids, id)
+		}
+		sort.Strings(ids)
+		fmt.Println(strings.Join(ids, " "))
+		return
+	}
+	if e := os.Getenv("VERIF_TIER"); e != "" && !isFlagSet("tier") {
+		*tier = e
+	}
+	seed := int64(1)
+	if s := os.Getenv("VERIF_SEED"); s != "" {
+		if v, err := strconv.ParseInt(s, 10, 64); err == nil {
+			seed = v
+		}
+	}
+	pd := props[*prop]
+	if pd == nil {
+		fmt.Fprintf(os.Stderr, "unknown property %q\n", *prop)
+		os.Exit(2)
+	}
+	t0 := time.Now()
+	known, kerr := loadKnown(filepath.Join(*verif, "known_findings.json"))
+	if kerr != nil {
+		fmt.Printf("cannot read known_findings.json: %v\n", kerr)
+		fmt.Printf("VIOLATION property=%s replay=%s\n", *prop, filepath.Join(*verif, "known_findings.json"))
+		os.Exit(1)
+	}
+
+	if *emit != "" || *tier != "thorough" {
+		r := runOne(pd, *repo, *tier, seed, *goos, *goarch)
+		if *emit != "" {
+			b, _ := json.Marshal(r)
+			os.WriteFile(*emit, b, 0o644)
+			return
+		}
+		os.Exit(r.Finish(*verif, time.Since(t0), known))
+	}
+
+	// thorough: one process per build configuration, merged.
+	self, _ := os.Executable()
+	var merged *Report
+	var cfgs []string
+	for _, c := range thoroughConfigs {
+		tmp, _ := os.CreateTemp("", "helmverif-*.json")
+		tmp.Close()
+		cmd := exec.Command(self, "-prop", *prop, "-tier", "thorough", "-repo", *repo, "-verif", *verif, "-goos", c.goos, "-goarch", c.goarch, "-emit", tmp.Name())
+		cmd.Stderr = os.Stderr
+		cmd.Stdout = os.Stderr
+		err := cmd.Run()
+		b, _ := os.ReadFile(tmp.Name())
+		os.Remove(tmp.Name())
+		var r Report
+		if err != nil || json.Unmarshal(b, &r) != nil {
+			r = *NewReport(pd.ID, "thorough", seed)
+			r.Rule("LOAD", "the configuration loads and type-checks", 0)
+			r.Config = c.goos + "/" + c.goarch
+			r.Unk("LOAD", "config:"+c.goos+"/"+c.goarch, "-", fmt.Sprintf("sub-process failed: %v", err))
+		}
+		r.rorder = nil
+		for name := range r.Rules {
+			r.rorder = append(r.rorder, name)
+		}
+		sort.Strings(r.rorder)
+		for _, o := range r.Obs { // restore verdicts lost by `json:"-"`
+			switch o.VerdictS {
+			case "discharged":
+				o.Verdict = Discharged
+			case "violated":
+				o.Verdict = Violated
+			default:
+				o.Verdict = Undecided
+			}
+			o.Prop = pd.ID
+		}
+		cfgs = append(cfgs, c.goos+"/"+c.goarch)
+		if merged == nil {
+			merged = &r
+			for _, ri := range merged.Rules {
+				_ = ri
+			}
+		} else {
+			merged.merge(&r)
+		}
+	}
+	merged.Config = strings.Join(cfgs, ",")
+	merged.Tier = "thorough"
+	os.Exit(merged.Finish(*verif, time.Since(t0), known))
+}
+
+func isFlagSet(name string) bool {
+	set := false
+	flag.Visit(func(f *flag.Flag) {
+		if f.Name == name {
+			set = true
+		}
+	})
+	return set
+}
+
+func runOne(pd *propDef, repo, tier string, seed int64, goos, goarch string) (r *Report) {
+	r = NewReport(pd.ID, tier, seed)
+	r.NotDec = pd.NotDec
+	r.Trusted = append([]string{"Go type checker and go/ssa construction (golang.org/x/tools v0.50.0)", "the checker's own CFG/dataflow code (fixtures under checker/testdata)", "idiom and exception tables in DESIGN.md"}, pd.Trusted...)
+	r.Assumes = []string{"anchored functions are located by resolved package/receiver/name or by role (resolved callees); an unresolvable anchor fails the check",
+		"interprocedural facts follow static callees, closures, go/defer and the enumerated interface slots only (no reflection, no function values stored in fields)"}
+	if goos != "" {
+		r.Config = goos + "/" + goarch
+	}
+	r.Rule("LOAD", "the repository loads, type-checks and every anchored file is part of the build", 1)
+	defer func() {
+		if x := recover(); x != nil {
+			r.Unk("LOAD", "panic", "-", fmt.Sprintf("checker panic: %v\n%s", x, debug.Stack()))
+		}
+	}()
+	w, err := Load(repo, goos, goarch)
+	if err != nil {
+		r.Unk("LOAD", "packages", "-", "load failed: "+err.Error())
+		return r
+	}
+	missing := []string{}
+	for _, a := range pd.Anchors {
+		if !w.HasFile(a) {
+			missing = append(missing, a)
+		}
+	}
+	if len(missing) > 0 {
+		r.Unk("LOAD", "anchors", "-", "anchored files not in the loaded build: "+strings.Join(missing, ", "))
+	} else {
+		r.OKTrivial("LOAD", "packages", "-", fmt.Sprintf("%d root packages, %d total, %d helm functions in SSA form", len(w.Roots), len(w.All), len(w.helmFns)))
+	}
+	pd.Run(w, r)
+	return r
+}
+
+// MarshalJSON support for Report in -emit mode: exported fields only (Rules map, Obs…).
